@@ -122,6 +122,18 @@ class TriggerHandler:
         if self.__stopped:
             # an update that was still on its way when we were shut down: a stopped handler takes no further actions
             return
+        # every new config from the service is built from scratch: a tracepoint that is unchanged in it stays
+        # installed, so it keeps its fire count and last fire time (else fire_count=1 fires again whenever any
+        # OTHER tracepoint is added or removed)
+        installed = {}
+        for trigger in self._tp_config:
+            for action in trigger.actions:
+                installed.setdefault((action.id, action.action_type), action)
+        for trigger in new_config:
+            for action in trigger.actions:
+                old = installed.get((action.id, action.action_type))
+                if old is not None and old is not action and old == action:
+                    action.keep_stats_of(old)
         self._tp_config = new_config
 
     def trace_call(self, frame: FrameType, event: str, arg):
